@@ -96,8 +96,11 @@ C06_DidEscrow(s) == BalOf(s, "m_did") >= SumSeq(s.didBal, LAMBDA d : d.amt)
 
 (* C08 *)
 C08_MintedEqualsCounter(s, gh) == s.supply - gh.supply0 = s.pool.reward - gh.reward0
+\* (projected reward values are floors of the real decimals, so the inequality is sound outside the exact fragment too)
 C08_ClaimsWithinMinted(s, gh) ==
-    s.inexact # <<>> \/ ClaimableMilli(s) + 1000 * gh.claimedNode <= 1000 * (s.pool.reward - gh.reward0) + gh.claimable0
+    ClaimableMilli(s) + 1000 * gh.claimedNode <= 1000 * (s.pool.reward - gh.reward0) + gh.claimable0
+\* rewards are shared per pledged byte: the divisor of the per-block share is the capacity actually pledged
+C08_ShareBaseIsPledgedCapacity(s) == s.pool.storage = SumSeq(s.pledges, LAMBDA p : p.cap)
 
 (* C11 state parts *)
 C11_ModelOutlivesShards(s) ==
@@ -141,6 +144,14 @@ C04_ClientEscrowClosed(x) ==
     SumDelta(x, ClientAccs(x.pre) \cup ClientAccs(x.post)) + Delta(x, "m_order") + Delta(x, "m_market") + Delta(x, "m_did") = 0
 C07_ProviderEscrowClosed(x) ==
     SumDelta(x, NodeAccs(x.pre) \cup NodeAccs(x.post)) + Delta(x, "m_node") - Minted(x) = 0
+
+\* C07: independent collateral ledger. gh.net[a] is the net flow of coins between provider a and the node escrow for shard
+\* collateral, taken from observed BANK deltas only; what a provider has paid in (plus what it still owes as recorded debt)
+\* is exactly the collateral of the shards it holds - so every coin taken for a shard comes back when the shard ends.
+NetOf(gh, a) == IF Has(gh.net, "a", a) THEN Get(gh.net, "a", a).v ELSE 0
+C07_CollateralLedger(s, gh) ==
+    \A a \in NodeAccs(s) : a \notin ClientAccs(s) =>
+        DebtOf(s, a) - NetOf(gh, a) = SumSeq(CompletedShardsOf(s, a), LAMBDA sh : sh.pledge)
 
 \* C07: per provider, the balance moves exactly against its collateral records net of recorded debt
 Owed(s, a) == (IF HasPledge(s, a) THEN PledgeOf(s, a).capPl + PledgeOf(s, a).shPl ELSE 0) - DebtOf(s, a)
